@@ -8,13 +8,15 @@ namespace Cspuz.Proofs.C16CompassA
 open Cspuz Cspuz.Ser Cspuz.Codecs Cspuz.C16F
 
 /-- the range of one number of a clue -/
-def NumOk (v : Int) : Prop := -1 ≤ v ∧ v ≤ 255
+def NumOk (v : Int) : Prop := -1 ≤ v ∧ v ≤ 4095
 
-/-- the text of one number: `.` for -1, one hexadecimal digit for 0..15, `-` and two hexadecimal digits for 16..255 -/
+/-- the text of one number: `.` for -1, one hexadecimal digit for 0..15, `-` and two hexadecimal digits for 16..255,
+`+` and three hexadecimal digits for 256..4095 -/
 def tok (v : Int) : Str :=
   if v = -1 then [46]
   else if v ≤ 15 then [digitChar v.toNat]
-  else [45, digitChar (v.toNat / 16), digitChar (v.toNat % 16)]
+  else if v ≤ 255 then [45, digitChar (v.toNat / 16), digitChar (v.toNat % 16)]
+  else [43, digitChar (v.toNat / 16 / 16), digitChar (v.toNat / 16 % 16), digitChar (v.toNat % 16)]
 
 /-- the text of a clue cell: up, down, left, right -/
 def clueStr (c : CompassClue) : Str := tok c.up ++ (tok c.down ++ (tok c.left ++ tok c.right))
@@ -84,20 +86,32 @@ theorem tok_cases (v : Int) (hv : NumOk v) :
     (v = -1 ∧ tok v = [46]) ∨
     (0 ≤ v ∧ v ≤ 15 ∧ v.toNat < 16 ∧ tok v = [digitChar v.toNat]) ∨
     (16 ≤ v ∧ v ≤ 255 ∧ v.toNat / 16 < 16 ∧ v.toNat % 16 < 16 ∧ 16 * (v.toNat / 16) + v.toNat % 16 = v.toNat ∧
-      tok v = [45, digitChar (v.toNat / 16), digitChar (v.toNat % 16)]) := by
+      tok v = [45, digitChar (v.toNat / 16), digitChar (v.toNat % 16)]) ∨
+    (256 ≤ v ∧ v ≤ 4095 ∧ v.toNat / 16 / 16 < 16 ∧ v.toNat / 16 % 16 < 16 ∧ v.toNat % 16 < 16 ∧
+      256 * (v.toNat / 16 / 16) + 16 * (v.toNat / 16 % 16) + v.toNat % 16 = v.toNat ∧
+      tok v = [43, digitChar (v.toNat / 16 / 16), digitChar (v.toNat / 16 % 16), digitChar (v.toNat % 16)]) := by
   obtain ⟨h1, h2⟩ := hv
   unfold tok
   by_cases ha : v = -1
   · left; exact ⟨ha, by rw [if_pos ha]⟩
   · by_cases hb : v ≤ 15
     · right; left; exact ⟨by omega, hb, by omega, by rw [if_neg ha, if_pos hb]⟩
-    · right; right
-      exact ⟨by omega, h2, by omega, by omega, by omega, by rw [if_neg ha, if_neg hb]⟩
+    · by_cases hc : v ≤ 255
+      · right; right; left
+        exact ⟨by omega, hc, by omega, by omega, by omega, by rw [if_neg ha, if_neg hb, if_pos hc]⟩
+      · right; right; right
+        exact ⟨by omega, h2, by omega, by omega, by omega, by omega, by rw [if_neg ha, if_neg hb, if_neg hc]⟩
 
-/-- every character of a number token is `.`, `-` or a hexadecimal digit: between 45 and 102, never `/` -/
-theorem tok_chars (v : Int) (hv : NumOk v) : ∀ ch ∈ tok v, 45 ≤ ch ∧ ch ≤ 102 ∧ ch ≠ 47 := by
+/-- every character of a number token is `.`, `-`, `+` or a hexadecimal digit: between 43 and 102, never `/` -/
+theorem tok_chars (v : Int) (hv : NumOk v) : ∀ ch ∈ tok v, 43 ≤ ch ∧ ch ≤ 102 ∧ ch ≠ 47 := by
   intro ch hch
-  rcases tok_cases v hv with ⟨_, e⟩ | ⟨_, _, hd, e⟩ | ⟨_, _, hd1, hd2, _, e⟩
+  rcases tok_cases v hv with ⟨_, e⟩ | ⟨_, _, hd, e⟩ | ⟨_, _, hd1, hd2, _, e⟩ | ⟨_, _, hd1, hd2, hd3, _, e⟩
+  rotate_right
+  · rw [e] at hch; simp at hch
+    have := digitChar_hex_range _ hd1
+    have := digitChar_hex_range _ hd2
+    have := digitChar_hex_range _ hd3
+    omega
   · rw [e] at hch; simp at hch; omega
   · rw [e] at hch; simp at hch
     have := digitChar_hex_range _ hd; omega
@@ -109,10 +123,12 @@ theorem tok_chars (v : Int) (hv : NumOk v) : ∀ ch ∈ tok v, 45 ≤ ch ∧ ch 
 theorem tok_ne_nil (v : Int) : tok v ≠ [] := by
   unfold tok; split
   · simp
-  · split <;> simp
+  · split
+    · simp
+    · split <;> simp
 
 theorem clueStr_chars (h w : Nat) (c : CompassClue) (hc : CompassClueOk h w c) :
-    ∀ ch ∈ clueStr c, 45 ≤ ch ∧ ch ≤ 102 ∧ ch ≠ 47 := by
+    ∀ ch ∈ clueStr c, 43 ≤ ch ∧ ch ≤ 102 ∧ ch ≠ 47 := by
   obtain ⟨hu, hd, hl, hr⟩ := clueOk_nums h w c hc
   intro ch hch
   simp only [clueStr, List.mem_append] at hch
